@@ -1,4 +1,4 @@
-import Proofs.PointObjKeys
+import Proofs.PointObjMulAdd
 import Mathlib.Algebra.Group.Int.Defs
 /-!
 # C19 — the value of a point or key never changes, whatever was done with it before
@@ -22,9 +22,12 @@ Hypothesis `RepIndep sp HS HA` (`Proofs/PointObjSim.lean`): the value-level func
 hidden states of values to hidden states of the group results, for **every** representation — C06/C07's theorems
 under N2T (open finding K1 is exactly the failure of this on curves with a point of order 2).
 
-`Covered`: all public operations of the model except `mul_add` / `Public_key.verifies` (modelled, driven against the
-real code and searched, refinement not yet proved: `step_refines` is stated for the covered set) and arithmetic whose
-operands are all legacy `Point`s (immutable objects: no hidden state is involved).
+`Covered`: all 24 public operations of the model — reads, `scale`, `to_affine`, `from_affine`, `-`, `double`, `+`, `*`,
+`mul_add`, `==`, pickle, `copy.copy`, key construction, `precompute` (lazy and eager), `to_string`, `verifies`, key `==`,
+signing-key construction, `sign` — except arithmetic whose operands are all legacy `Point`s (`P + Q`, `k * P`, `-P`,
+`P.double()` on immutable objects: no hidden state is involved; this includes the `other * other_mul` shortcut of
+`mul_add` with a legacy `other` and first multiplier 0), and `verifies` on a key whose point is not a `PointJacobi`
+(never the case for keys built by the library).
 -/
 namespace C19
 open PointObj Curve
@@ -38,8 +41,8 @@ def Covered (ah : AHeap G) : Op → Prop
   | .double r => NotAff ah r
   | .mul r _ => NotAff ah r
   | .add r s => NotBothAff ah r s
-  | .mulAdd _ _ _ _ => False
-  | .keyVerify _ _ _ _ => False
+  | .mulAdd _ a s _ => MulAddOK ah a s
+  | .keyVerify k _ _ _ => KeyPointOK ah k
   | _ => True
 
 theorem run_of_outcome {α} {m : M α} {am : AM G α} {f : α → Out} {h : Heap} {ah : AHeap G}
@@ -73,7 +76,7 @@ theorem step_refines (hyp : RepIndep sp HS HA) {h : Heap} {ah : AHeap G} (hi : I
   | double r => exact run_of_outcome (doubleObj_sim hyp r h ah hi hc)
   | add r s => exact run_of_outcome (addObj_sim hyp r s h ah hi hc)
   | mul r k => exact run_of_outcome (mulObj_sim hyp r k h ah hi hc)
-  | mulAdd r a s b => exact absurd hc id
+  | mulAdd r a s b => exact run_of_outcome (mulAddObj_sim hyp r a s b h ah hi hc)
   | eq r s => exact run_of_outcome (eqObj_sim hyp r s h ah hi)
   | pickle r => exact run_of_outcome (pickleObj_sim r h ah hi)
   | copy r => exact run_of_outcome (copyPoint_sim r h ah hi)
@@ -84,7 +87,7 @@ theorem step_refines (hyp : RepIndep sp HS HA) {h : Heap} {ah : AHeap G} (hi : I
     | true => exact run_of_outcome' (keyPrecompute_lazy_sim hyp k h ah hi) (fun _ _ => rfl)
     | false => exact run_of_outcome' (keyPrecompute_eager_sim hyp k h ah hi) (fun _ _ => rfl)
   | keySer k e => exact run_of_outcome (keySerObj_sim hyp k e h ah hi)
-  | keyVerify k e r s => exact absurd hc id
+  | keyVerify k e r s => exact run_of_outcome (keyVerifyObj_sim hyp k e r s h ah hi hc)
   | keyEq a b => exact run_of_outcome (keyEqObj_sim hyp a b h ah hi)
   | mkSKey g d => exact run_of_outcome (mkSKeyObj_sim hyp g d h ah hi)
   | skSign sk e k => exact run_of_outcome (skSignObj_sim hyp sk e k h ah hi)
